@@ -310,7 +310,8 @@ def main():
                 'backend': o['backend'], 'time_s': o['time_s']} for o in (obs[:: max(1, len(obs) // 12)] if obs else [])][:14]
     only_bounded = bool(bounded_keys) and n_obl + len(known) == 0
     ev = {
-        'property_id': prop, 'tier': tier, 'seed': seed, 'level': 'exploration' if only_bounded else 'proof',
+        'property_id': prop, 'tier': tier, 'seed': seed,
+        'level': load_json(os.path.join(HERE, 'levels.json'), {}).get(prop, 'exploration' if only_bounded else 'proof'),
         'coverage': {
             'evaluations': int((sweep or {}).get('checked') or 0), 'distinct_nontrivial': int(bounded_calls if only_bounded else (sweep or {}).get('checked') or 0),
             'rule': 'run-time contract check: every clause of the sidecar contract evaluated on the real function for each input of the '
